@@ -59,8 +59,9 @@ FloatOk(c, k) == c # "big" /\ (k = "f32" => c # "f1e39")
 \*  sctl (a raw control character inside: not JSON) | sbad (an invalid UTF-8 byte inside)
 \*  q7 "7", q200 "200", ... : a string whose content is the number literal of that class (for `,string` fields and json.Number)
 QClasses == {"q7", "q200", "q300", "q40000", "q70000", "q3e9", "q5e9", "qn3", "q1_5", "q2_63"}
-StrClasses == {"sx", "se", "s12", "sb64", "sesc", "snull", "strue", "sq", "ssur", "sctl", "sbad"} \cup QClasses
-B64Ok == {"se", "sb64", "snull", "strue"}
+\*  sb1 "YQ==" (one byte), sb3 "YWJj" (three bytes): the other base64 paddings
+StrClasses == {"sx", "se", "s12", "sb64", "sb1", "sb3", "sesc", "snull", "strue", "sq", "ssur", "sctl", "sbad"} \cup QClasses
+B64Ok == {"se", "sb64", "snull", "strue", "sb1", "sb3"}
 \* the literal that the content of a string class spells (for `,string` fields), or "none"
 Inner(c) == CASE c = "s12" -> [j |-> "n", c |-> "p12"] [] c = "snull" -> [j |-> "null"] [] c = "strue" -> [j |-> "t"]
               [] c = "sq" -> [j |-> "s", c |-> "sx"]
